@@ -1,6 +1,6 @@
 use crate::net::EventLoops;
 use libc::{fd_set, timeval};
-use std::ffi::{c_int, c_uint};
+use std::ffi::c_int;
 use std::time::Duration;
 
 trait SelectSyscall {
@@ -56,8 +56,9 @@ impl<I: SelectSyscall> SelectSyscall for NioSelectSyscall<I> {
         timeout: *mut timeval,
     ) -> c_int {
         // `t` is the timeout left in milliseconds, `c_uint::MAX` means no timeout
-        let mut t = if timeout.is_null() {
-            c_uint::MAX
+        // `None`: wait forever
+        let timeout_time = if timeout.is_null() {
+            None
         } else {
             let tv = unsafe { *timeout };
             if tv.tv_sec < 0 || tv.tv_usec < 0 {
@@ -70,7 +71,7 @@ impl<I: SelectSyscall> SelectSyscall for NioSelectSyscall<I> {
                 .expect("overflow")
                 .saturating_mul(1_000)
                 .saturating_add(u64::try_from(tv.tv_usec).expect("overflow").div_ceil(1_000));
-            c_uint::try_from(ms).unwrap_or(c_uint::MAX - 1).min(c_uint::MAX - 1)
+            Some(crate::common::get_timeout_time(Duration::from_millis(ms)))
         };
         let mut o = timeval {
             tv_sec: 0,
@@ -93,13 +94,19 @@ impl<I: SelectSyscall> SelectSyscall for NioSelectSyscall<I> {
             r = self
                 .inner
                 .select(fn_ptr, nfds, readfds, writefds, errorfds, &raw mut o);
-            if r != 0 || t == 0 {
+            if r != 0 {
                 break;
             }
-            _ = EventLoops::wait_event(Some(Duration::from_millis(u64::from(t.min(x)))));
-            if t != c_uint::MAX {
-                t = t.saturating_sub(x);
+            // the time left is measured, not assumed: a slice takes longer than
+            // its nominal length, and the difference must not add up
+            let left_time = timeout_time
+                .map_or(u64::MAX, |t| t.saturating_sub(crate::common::now()));
+            if left_time == 0 {
+                break;
             }
+            _ = EventLoops::wait_event(Some(
+                Duration::from_nanos(left_time).min(Duration::from_millis(x)),
+            ));
             if x < 16 {
                 x <<= 1;
             }
